@@ -30,11 +30,32 @@ def _da(t):
 
 def op_activation(t):
     events = [(list(c), []) for c in t['events']]
+    d = None
+    if t.get('as_path'):
+        # events=<path string>: the events are read with io.events_from_file inside activation(); the file is
+        # written by the harness' own writer, optionally with a third (frequency) column; the outcome column
+        # (ignored by activation) is filled from t['file_outcomes']
+        import os
+        import tempfile
+        d = tempfile.mkdtemp(prefix='act-', dir=os.getcwd())
+        path = os.path.join(d, 'events.tab.gz')
+        outs = t.get('file_outcomes') or [[] for _ in t['events']]
+        impl.write_event_file(path, [(list(c), list(o)) for c, o in zip(t['events'], outs)], freq=t.get('freq'))
+        events = path
+    try:
+        return _activation(t, events)
+    finally:
+        if d is not None:
+            import shutil
+            shutil.rmtree(d, ignore_errors=True)
+
+
+def _activation(t, events):
     try:
         if t['kind'] == 'matrix':
             w = _da(t)
             before = w.values.copy()
-            a = activation.activation(iter(events) if t.get('as_generator') else events, w,
+            a = activation.activation(iter(events) if t.get('as_generator') and not t.get('as_path') else events, w,
                                       n_jobs=int(t.get('n_jobs', 1)), remove_duplicates=POLICY[t['policy']],
                                       ignore_missing_cues=bool(t.get('ignore_missing', False)))
             outs = [str(x) for x in a.coords['outcomes'].values.tolist()]
